@@ -6,9 +6,9 @@ package vsim
 import (
 	"math/big"
 
-	"github.com/relab/hotstuff/security/crypto"
 	"context"
 	"fmt"
+	"github.com/relab/hotstuff/security/crypto"
 	"reflect"
 	"strings"
 	"sync"
@@ -129,24 +129,26 @@ type TraceEntry struct {
 
 // Cluster is one execution's world.
 type Cluster struct {
-	Cfg     Config
-	W       *vk.World
-	Actors  []*Actor
-	ByID    map[hotstuff.ID][]*Actor
-	Pool    []Pending
-	seq     int
-	Step    int
-	Rng     *vbase.Rng
-	Trace   []TraceEntry
-	Mon     *Monitors
-	R       *vbase.Result
-	Panic   any
-	PanicAt string
+	Cfg          Config
+	W            *vk.World
+	Actors       []*Actor
+	ByID         map[hotstuff.ID][]*Actor
+	Pool         []Pending
+	seq          int
+	Step         int
+	Rng          *vbase.Rng
+	lateTimers   []lateTimer
+	staggerFirst *Actor // directed scenarios: the replica whose timer is the first to fire in the next idle round
+	Trace        []TraceEntry
+	Mon          *Monitors
+	R            *vbase.Result
+	Panic        any
+	PanicAt      string
 	// statistics of this execution
 	Delivered, Dropped, Dups, Timeouts, ByzActs, PartChanges, Crashes int
-	FaultSteps                                                     int
-	cmd                                                            *cmdFeed
-	sending                                                        int // actor idx whose handlers are running (sender attribution)
+	FaultSteps                                                        int
+	cmd                                                               *cmdFeed
+	sending                                                           int // actor idx whose handlers are running (sender attribution)
 	// Cut lists individual links that are down (in addition to the partition groups).
 	Cut map[[2]int]bool
 	// FetchDeny: the next k block requests for a hash get no reply (lost reply); FetchLost counts lost requests.
@@ -540,10 +542,10 @@ type cmdFeed struct {
 	next    map[int]map[uint32]uint64 // actor idx -> client -> next seq to offer
 	clients uint32
 	// client mode
-	mu       sync.Mutex
-	outcomes []Outcome
-	waiting  map[int]map[cmdKey]bool
-	issued   map[int][]*clientpb.Command
+	mu         sync.Mutex
+	outcomes   []Outcome
+	waiting    map[int]map[cmdKey]bool
+	issued     map[int][]*clientpb.Command
 	recorded   atomic.Int64
 	closed     bool
 	submitted  map[int]int
